@@ -127,6 +127,8 @@ type Ctx struct {
 	SSA     map[string]*ssa.Package
 	// all functions with bodies that belong to the module (incl. closures, instances)
 	ModFuncs []*ssa.Function
+	Notes      []string // what the normalisation pre-pass did
+	Normalised bool
 	cg       *cgraph
 	loadS    float64
 }
@@ -173,6 +175,52 @@ func load(repo string, tests bool) *Ctx {
 	}
 	if len(pkgs) == 0 {
 		broken("load: zero packages under %s", repo)
+	}
+	// normalisation: inline helpers the rules do not know (see inline.go)
+	if os.Getenv("CHFCHECK_NOINLINE") == "" {
+		known := baselineFuncs()
+		var overlay map[string][]byte
+		curPkgs, curFset := pkgs, c.Fset
+		for pass := 0; pass < 4; pass++ {
+			var mod []*packages.Package
+			okTypes := true
+			packages.Visit(curPkgs, nil, func(p *packages.Package) {
+				if strings.HasPrefix(p.PkgPath, modPath) {
+					mod = append(mod, p)
+					if len(p.Errors) > 0 || p.TypesInfo == nil {
+						okTypes = false
+					}
+				}
+			})
+			if !okTypes {
+				break
+			}
+			sort.Slice(mod, func(i, j int) bool { return mod[i].ID < mod[j].ID })
+			next := normalise(mod, curFset, known, overlay, func(m string) { c.Notes = append(c.Notes, m) })
+			if next == nil {
+				break
+			}
+			fs := token.NewFileSet()
+			cfg2 := &packages.Config{Mode: packages.LoadAllSyntax, Dir: repo, Fset: fs, Env: env, Tests: tests, Overlay: next}
+			p2, err2 := packages.Load(cfg2, "./...")
+			bad := err2 != nil || len(p2) == 0
+			if !bad {
+				packages.Visit(p2, nil, func(p *packages.Package) {
+					if strings.HasPrefix(p.PkgPath, modPath) && len(p.Errors) > 0 {
+						bad = true
+						c.Notes = append(c.Notes, fmt.Sprintf("normalised program does not type-check (%v): analysing the program as written", p.Errors[0]))
+					}
+				})
+			}
+			if bad {
+				break
+			}
+			overlay, curPkgs, curFset = next, p2, fs
+		}
+		if overlay != nil {
+			pkgs, c.Fset = curPkgs, curFset
+			c.Normalised = true
+		}
 	}
 	packages.Visit(pkgs, nil, func(p *packages.Package) {
 		c.All = append(c.All, p)
@@ -471,7 +519,14 @@ func main() {
 	explain := flag.String("explain", "", "replay file: re-run the property of that file and print every obligation")
 	verbose := flag.Bool("v", false, "print every obligation")
 	listRules := flag.Bool("rules", false, "print one line per obligation 'STATUS rule|key' (used by the control runner)")
+	inventory := flag.Bool("inventory", false, "print the inventory of module functions (baseline_funcs.txt) and exit")
 	flag.Parse()
+	if *inventory {
+		os.Setenv("CHFCHECK_NOINLINE", "1")
+		abs, _ := filepath.Abs(*repo)
+		writeInventory(load(abs, false))
+		return
+	}
 	if *explain != "" {
 		b, err := os.ReadFile(*explain)
 		if err != nil {
@@ -529,6 +584,9 @@ func main() {
 		}()
 		c = load(abs, false)
 		c.Tier = *tier
+		for _, n := range c.Notes {
+			fmt.Println("note: " + n)
+		}
 	}()
 	if code != 0 {
 		os.Exit(code)
